@@ -98,6 +98,11 @@ static json run_job(const json& job)
             else if (entry == "xml_fd") { int fd = open(job["file"].get<std::string>().c_str(), O_RDONLY); r["ret"] = parse_XML_fd(fd, doc.get(), newxta); close(fd); }
             else if (entry == "xta") r["ret"] = (int)parse_XTA(text.c_str(), doc.get(), newxta);
             else throw std::invalid_argument("bad entry");
+        } else if (builder == "expression") {
+            // a builder that supports expressions only: declarations make it throw NotSupportedException THROUGH utap_parse
+            ExpressionBuilder eb{*doc};
+            r["ret"] = parse_XTA(text.c_str(), &eb, newxta, part_of(job["part"]), "");
+            r["nfrag"] = eb.getExpressions().size();
         } else if (builder == "pretty") {
             PrettyPrinter pp(pretty_out);
             if (entry == "xml_buffer") r["ret"] = parse_XML_buffer(text.c_str(), &pp, newxta);
@@ -226,4 +231,6 @@ static json run_job(const json& job)
     return out;
 }
 
+#ifndef VH_NO_MAIN
 int main(int argc, char** argv) { return vh::jobloop_main(argc, argv, run_job); }
+#endif
